@@ -10,6 +10,15 @@
 use serde_json::{Value, json};
 use std::io::{BufRead, Write};
 use std::panic::{AssertUnwindSafe, catch_unwind};
+use std::sync::OnceLock;
+
+pub mod engine;
+
+static OPTS: OnceLock<Vec<(String, String)>> = OnceLock::new();
+/// value of a generic `--opt key=value` command-line option (None when absent)
+pub fn opt(key: &str) -> Option<String> {
+    OPTS.get()?.iter().rev().find(|(k, _)| k == key).map(|(_, v)| v.clone())
+}
 
 pub struct SplitMix64(pub u64);
 impl SplitMix64 {
@@ -78,6 +87,7 @@ pub fn drive(
     let mut seed = 0u64;
     let mut tier = Tier::Quick;
     let mut replay: Option<String> = None;
+    let mut opts: Vec<(String, String)> = Vec::new();
     let mut i = 1;
     while i < args.len() {
         match args[i].as_str() {
@@ -93,10 +103,17 @@ pub fn drive(
                 replay = Some(args[i + 1].clone());
                 i += 1;
             }
+            "--opt" => {
+                let kv = args[i + 1].clone();
+                let (k, v) = kv.split_once('=').unwrap_or((kv.as_str(), ""));
+                opts.push((k.to_string(), v.to_string()));
+                i += 1;
+            }
             other => panic!("unknown argument {other}"),
         }
         i += 1;
     }
+    let _ = OPTS.set(opts);
     let mut em = Emitter { next_id: 0, run, out: std::io::BufWriter::new(std::io::stdout()) };
     if let Some(path) = replay {
         let f = std::fs::File::open(&path).expect("open replay file");
